@@ -1,7 +1,7 @@
 /* C12 / C13 --- ownership of stacks and thread records; every thread reaped exactly once and recycled.
  *
  * A program is a list of main-thread operations:
- *    c<s><b>  create a thread; s = stack code (0 default, 1 4096, 2 8192, 3 12288, 4 65536, 5 20000, 6 70000), n = created detached by
+ *    c<s><b>  create a thread; s = stack code (0 default, 1 4096, 2 8192, 3 12288, 4 65536, 5 20000, 6 70000, 7 16384, 8 4097, 9 20480), n = created detached by
  *             attribute (default stack); b = body: r return at once, y yield once before returning
  *    j<i> t<i> d<i> x<i>   reap the i-th created thread by join / try-join loop / timed-join (then join) / detach
  *    y        main yields
@@ -30,7 +30,9 @@ static void build(void) {
     /* release followed at once by reuse on the same worker */
     "c0r j0 c0r j1 c0r j2", "c1r j0 c1r j1 c3r j2 c3r j3", "c0y c0y j0 j1 c0y c0y j3 j2",
     /* sizes that are not a multiple of the page size: the rounded size decides the allocator class */
-    "c5r j0 c5r j1 c5y j2 c5r j3", "c6y c5y j1 j0 c6r c5r j2 j3", 0 };
+    "c5r j0 c5r j1 c5y j2 c5r j3", "c6y c5y j1 j0 c6r c5r j2 j3",
+    /* different requests that share one allocator size class: 3 pages then 4 pages, 4097 bytes then 2 pages, 5 pages then 8 */
+    "c3r j0 c7r j1 c3r j2", "c8r j0 c2r j1 c8y j2", "c9r j0 c4r j1 c9r c3r j3 j2", "c3y c7y j0 j1 c7r c3r j2 j3", 0 };
   for (int tier = 0; tier < 2; tier++) for (int i = 0; S[i]; i++) for (int W = 1; W <= (tier ? 3 : 2); W++) {
     int len = strlen(S[i]); int K = 2;
     if (tier && len <= 14 && W == 2) K = 3;
@@ -81,7 +83,7 @@ static void describe(int tier, int prog, char * b, size_t n) { build(); snprintf
 static prog_t * cur;
 static myth_thread_t th[8]; static int nth, detached_attr[8], reaped[8], yields_in_body[8];
 static volatile int fin[8], started[8];
-static const size_t stack_of[] = { 0, 4096, 8192, 12288, 65536, 20000, 70000 };
+static const size_t stack_of[] = { 0, 4096, 8192, 12288, 65536, 20000, 70000, 16384, 4097, 20480 };
 
 static void * body(void * a) {
   int i = (int)(long)a;
